@@ -8,7 +8,7 @@
 (* on an accepted path in the variable kf.                                       *)
 EXTENDS ByteSet, TLC
 
-KnownIds == {"C05-KF1", "C05-KF3", "C05-KF4", "C05-KF7", "C05-KF8", "C05-KF9"}
+KnownIds == {"C05-KF1", "C05-KF3", "C05-KF4", "C05-KF7"}
 
 AllFalse(s) == \A i \in 1..Len(s) : s[i] = FALSE
 U_(subj) == subj.universe
